@@ -46,6 +46,12 @@ WEIGHTS["tokens"] = [("add", 12), ("new", 6), ("commit", 10), ("flush", 6), ("ro
                      ("expunge_all", 1)]
 
 
+# several flushes inside one SAVEPOINT touching the same instance (update, then delete, then a
+# failing flush or a savepoint rollback)
+WEIGHTS["savepoint"] = [("add", 14), ("setpk", 16), ("flush", 22), ("delete", 14), ("nbegin", 12), ("nrollback", 10),
+                        ("ncommit", 3), ("commit", 5), ("rollback", 3), ("new", 3), ("get", 2), ("expire", 2)]
+
+
 def pick(rng, profile, npool):
     names, ws = zip(*WEIGHTS[profile])
     k = rng.choices(names, ws)[0]
@@ -79,6 +85,46 @@ def gen_random_case(rng, profile, nops, eoc):
     finally:
         env.dispose()
     return eoc, ops, recs
+
+
+def gen_savepoint_ops(rng):
+    """a history with SAVEPOINTs in which several flushes touch the same instances: inside each
+    SAVEPOINT 2-5 groups of 1-2 changes (primary-key update, delete, add, expire) each followed
+    by a flush, ended by a SAVEPOINT rollback, a release, a transaction rollback or left to a
+    failing flush (a conflicting primary key)"""
+    pks = rng.sample(PKS, rng.randint(1, len(PKS)))
+    ops = [("new", k) for k in pks]
+    n = len(ops)
+    for i in range(n):
+        if rng.random() < 0.85:
+            ops.append(("add", i))
+    ops.append(rng.choice([("commit",), ("commit",), ("flush",)]))
+    for _ in range(rng.randint(1, 2)):
+        ops.append(("nbegin",))
+        for _g in range(rng.randint(2, 5)):
+            for _c in range(rng.randint(1, 2)):
+                w = rng.random()
+                i = rng.randrange(n)
+                if w < 0.40:
+                    ops.append(("setpk", i, rng.choice(PKS)))
+                elif w < 0.72:
+                    ops.append(("delete", i))
+                elif w < 0.90:
+                    ops.append(("add", i))
+                else:
+                    ops.append(("expire", i))
+            ops.append(("flush",))
+        w = rng.random()
+        if w < 0.5:
+            ops.append(("nrollback",))
+        elif w < 0.65:
+            ops.append(("ncommit",))
+        elif w < 0.8:
+            ops.append(("rollback",))
+        # else: the SAVEPOINT stays open
+    for _ in range(rng.randint(0, 3)):
+        ops.append(rng.choice([("commit",), ("rollback",), ("flush",), ("get", rng.choice(PKS)), ("nrollback",)]))
+    return ops
 
 
 def run_fixed(eoc, ops):
@@ -124,6 +170,11 @@ def _worker(job):
     elif kind == "fixed":
         for eoc, ops in job[1]:
             out.append(compact(run_fixed(eoc, ops)))
+    elif kind == "savepoint":
+        _, seedstr, n, eoc_p = job
+        rng = random.Random(seedstr)
+        for _ in range(n):
+            out.append(compact(run_fixed(rng.random() < eoc_p, gen_savepoint_ops(rng))))
     elif kind == "tokens":  # identity tokens: direct oracle only, nothing goes to the model
         from harness import lib_uow_oracle as O
 
